@@ -69,9 +69,16 @@ def ctx_variants(params: List[Dict[str, Any]], flavour_async: bool) -> Iterator[
     cand = [first] + params
     if hm.valid_order(cand):
         yield {'params': cand, 'flavour': fn, 'ctx': 'positional'}
-    # class based view: through the constructor, or no context at all
+    # class based view: through the constructor, or no context at all; the instance parameter need not be called 'self'
     yield {'params': params, 'flavour': vw, 'ctx': 'view'}
     yield {'params': params, 'flavour': vw, 'ctx': 'none'}
+    yield {'params': params, 'flavour': vw, 'ctx': 'view', 'self_name': 'this'}
+    # a client parameter whose name is contained in the context parameter's name ('t' in 'ctx')
+    renamed = [({**p, 'name': 't'} if i == 0 and p['kind'] in ('PK', 'KO') else p) for i, p in enumerate(params)]
+    if renamed != params:
+        cand = renamed + [{'name': 'ctx', 'kind': 'KO', 'ctx': True}] if not any(p['kind'] == 'VK' for p in params) else None
+        if cand and hm.valid_order(cand):
+            yield {'params': cand, 'flavour': fn, 'ctx': 'name'}
 
 
 def signatures(n: int) -> Iterator[List[Dict[str, Any]]]:
@@ -149,7 +156,8 @@ class C04(Check):
         "at each valid positional position and as keyword-only; first positional with positional=True; class based view with and without "
         "constructor context) x dispatcher (sync: functions and views; async: coroutines and async views), crossed with params absent, all "
         "positional lists of length 0..5 and all named mappings over every subset of (parameter names + 'zz' + the context name); (b) "
-        "Hypothesis: signatures of up to 4 parameters with JSON-scalar defaults and pooled JSON values as arguments. Oracle: a twin function "
+        "Hypothesis: signatures of up to 4 parameters with JSON-scalar defaults and pooled JSON values as arguments; views whose instance parameter is named 'this'; a client parameter whose name is contained in the context parameter's name; "
+        "(c) histories of 6..14 short-lived dispatchers each serving a freshly created function that is dropped afterwards (every step judged like a single case). Oracle: a twin function "
         "with the same signature minus the context is called with the same list/mapping: TypeError => -32602 and empty execution log; "
         "otherwise success whose result is the scripted return value and one log entry whose arguments equal the twin's locals(); the "
         "recorded context is the object passed to dispatch (identity) - the context object itself ranges over a plain object, an empty dict, an empty list, a falsy object and None. non-trivial = the signature has >= 1 parameter and params is "
@@ -164,7 +172,8 @@ class C04(Check):
     trusted_base = ['python call binding (twin functions)', 'pbt/refserver.py']
     required_classes = ['kind/PO', 'kind/PK', 'kind/VP', 'kind/KO', 'kind/VK', 'ctx/none', 'ctx/name', 'ctx/positional', 'ctx/view',
                         'outcome/binds', 'outcome/does-not-bind', 'attack/context-name-supplied', 'default-exercised',
-                        'flavour/func', 'flavour/coro', 'flavour/view', 'flavour/aview', 'ctx-value/empty-dict', 'ctx-value/falsy-object', 'ctx-value/none']
+                        'flavour/func', 'flavour/coro', 'flavour/view', 'flavour/aview', 'ctx-value/empty-dict', 'ctx-value/falsy-object', 'ctx-value/none',
+                        'ephemeral/history', 'view/instance-parameter-not-named-self']
 
     # ---- generation ---------------------------------------------------------------------------------
 
@@ -230,11 +239,32 @@ class C04(Check):
                 p = {'value': {n: draw(s_val) for i, n in enumerate(names) if bits >> i & 1}}
             return {'dispatcher': disp, 'method': m, 'params': p, 'id': draw(s_id), 'behaviour': draw(s_beh), 'ctx_value': draw(s_ctxv)}
 
-        return case()
+        @st.composite
+        def ephemeral(draw):
+            # a history of short-lived dispatchers, each serving its own freshly created (and then dropped) function
+            steps = []
+            for _ in range(draw(st.integers(6, 14))):
+                c = draw(case())
+                if c['method']['flavour'] not in ('func', 'coro'):
+                    c['method'] = {**c['method'], 'flavour': 'coro' if c['dispatcher'] == 'async' else 'func', 'ctx': 'none',
+                                   'params': [q for q in c['method']['params'] if not q.get('ctx')], 'name': 'meth'}
+                # variadic / positional-only parameters are KF-C04-1's subject, not this history's
+                ps = [({**q, 'kind': 'PK'} if q['kind'] == 'PO' else q) for q in c['method']['params'] if q['kind'] not in ('VP', 'VK')]
+                if not hm.valid_order(ps):
+                    ps = [{k: v for k, v in q.items() if k != 'default'} for q in ps]
+                c['method'] = {**c['method'], 'params': ps}
+                steps.append({'method': c['method'], 'params': c['params'], 'dispatcher': c['dispatcher']})
+            return {'kind': 'ephemeral', 'steps': steps}
+
+        return st.one_of(case(), case(), case(), case(), case(), case(), case(), ephemeral())
 
     def corpus(self):
         P = lambda name, kind, **kw: {'name': name, 'kind': kind, **kw}  # noqa: E731
+        f = lambda *ps: {'name': 'meth', 'params': list(ps), 'flavour': 'func', 'ctx': 'none'}  # noqa: E731
+        sigs = [(f(P('a', 'PK')), {'value': [1]}), (f(P('a', 'PK'), P('b', 'PK')), {'value': [1, 2]}), (f(), {'absent': True}),
+                (f(P('x', 'KO')), {'value': {'x': 1}}), (f(P('a', 'PK'), P('b', 'PK', default={'value': 0})), {'value': {'a': 1}}), (f(P('y', 'PK')), {'value': {'y': 2}})]
         return [
+            {'kind': 'ephemeral', 'steps': [{'method': m, 'params': p, 'dispatcher': 'sync'} for m, p in sigs * 4]},
             {'dispatcher': 'sync', 'method': {'name': 'meth', 'params': [P('a', 'PK'), P('args', 'VP')], 'flavour': 'func', 'ctx': 'none'},
              'params': {'value': [1, 2, 3]}, 'id': 1, 'behaviour': {'kind': 'echo'}},
             {'dispatcher': 'sync', 'method': {'name': 'meth', 'params': [P('ctx', 'PK', ctx=True), P('a', 'PK')], 'flavour': 'func', 'ctx': 'name'},
@@ -247,7 +277,28 @@ class C04(Check):
 
     # ---- run ------------------------------------------------------------------------------------------
 
+    def run_ephemeral(self, spec: Any) -> Outcome:
+        """every step: a NEW function object (not cached by the harness) behind a new dispatcher, judged like a single case, then
+        dropped - what a process that builds dispatchers per test / per tenant does; nothing may be remembered about a dead function"""
+        import gc
+        discs: List[Disc] = []
+        classes = ['ephemeral/history']
+        sigs = set()
+        for k, step in enumerate(spec['steps']):
+            one = {'dispatcher': step['dispatcher'], 'method': {**step['method'], 'ephemeral': True}, 'params': step['params'], 'id': k + 1,
+                   'behaviour': {'kind': 'echo'}}
+            out = self.run_case(one)
+            sigs.add(hm.sig_source(step['method']['params'])[0])
+            for d in out.discs:
+                discs.append(Disc(d.bucket.replace('C04/', 'C04/ephemeral/', 1), f"step {k} of a history of short-lived functions: {d.detail}"))
+            if discs:
+                break
+            gc.collect(1)      # the dropped function sits in a cycle with its globals dict; the two young generations are enough (and cheap)
+        return Outcome(discs, len(sigs) >= 2, classes, evaluations=len(spec['steps']))
+
     def run_case(self, spec: Any) -> Outcome:
+        if spec.get('kind') == 'ephemeral':
+            return self.run_ephemeral(spec)
         m = dict(spec['method'])
         m['behaviour'] = spec['behaviour']
         req: Dict[str, Any] = {'jsonrpc': '2.0', 'id': spec['id'], 'method': m['name']}
@@ -276,6 +327,8 @@ class C04(Check):
 
         el = exp.elements[0] if exp.elements else None
         classes = [f"ctx/{m['ctx']}", f"flavour/{m['flavour']}", f"dispatcher/{spec['dispatcher']}"]
+        if m.get('self_name', 'self') != 'self':
+            classes.append('view/instance-parameter-not-named-self')
         if has_ctx:
             classes.append(f"ctx-value/{spec.get('ctx_value', 'object')}")
         for q in m['params']:
